@@ -33,6 +33,13 @@ type ChainCfg struct {
 	// SlowEvict: write-back caches may have one victim write-back in flight and
 	// the ideal memory is 12 cycles slower, so victim write-backs queue up.
 	SlowEvict bool `json:"slow_evict,omitempty"`
+	// SlowDriver: the requester's response-retrieval mode (DriverSpec.Slow).
+	SlowDriver string `json:"slow_driver,omitempty"`
+	// Cache geometry overrides (0 = derived from Lat as before): number of
+	// banks, bank latency, requests per cycle of every cache.
+	Banks   int `json:"banks,omitempty"`
+	BankLat int `json:"bank_lat,omitempty"`
+	Width   int `json:"width,omitempty"`
 }
 
 // Name is a compact label.
@@ -48,7 +55,25 @@ func (c ChainCfg) Name() string {
 	if c.SlowEvict {
 		w += "/slowevict"
 	}
+	if c.SlowDriver != "" {
+		w += "/requester-" + c.SlowDriver
+	}
+	if c.Banks != 0 || c.BankLat != 0 || c.Width != 0 {
+		w += fmt.Sprintf("/banks%d-banklat%d-width%d", c.Banks, c.BankLat, c.Width)
+	}
 	return fmt.Sprintf("%s%sx%d/b%d/l%d/m%d/e%v%s", s, c.Memory, c.NumMem, c.PortBuf, c.Lat, c.MSHR, c.Eager, w)
+}
+
+func applyGeometry(cfg ChainCfg, banks, bankLat, width *int) {
+	if cfg.Banks != 0 {
+		*banks = cfg.Banks
+	}
+	if cfg.BankLat != 0 {
+		*bankLat = cfg.BankLat
+	}
+	if cfg.Width != 0 {
+		*width = cfg.Width
+	}
 }
 
 // Chain is a built hierarchy.
@@ -191,6 +216,7 @@ func BuildChain(cfg ChainCfg, ops []MemOp) *Chain {
 			spec.NumReqPerCycle = 1 + cfg.Lat%2
 			spec.BankLatency = cfg.Lat
 			spec.DirLatency = cfg.Lat
+			applyGeometry(cfg, &spec.NumBanks, &spec.BankLatency, &spec.NumReqPerCycle)
 			spec.WriteBufferCapacity = 2
 			spec.MaxInflightFetch = 2
 			spec.MaxInflightEviction = 2
@@ -210,6 +236,7 @@ func BuildChain(cfg ChainCfg, ops []MemOp) *Chain {
 			spec.NumReqPerCycle = 1 + cfg.Lat%2
 			spec.BankLatency = cfg.Lat
 			spec.DirLatency = cfg.Lat
+			applyGeometry(cfg, &spec.NumBanks, &spec.BankLatency, &spec.NumReqPerCycle)
 			spec.MaxNumConcurrentTrans = 4
 			spec.WritePolicyType = map[string]string{"wt-around": "write-around", "wt-evict": "write-evict", "wt-through": "write-through"}[kind]
 			c := writethroughcache.MakeBuilder().WithRegistrar(env).WithSpec(spec).
@@ -253,7 +280,7 @@ func BuildChain(cfg ChainCfg, ops []MemOp) *Chain {
 			ops[i].Dst = int(ops[i].Addr / LineSize % uint64(len(memRemotes)))
 		}
 	}
-	ch.Driver = NewDriver(env, "Driver", ops, cfg.Eager, targets, cfg.PortBuf)
+	ch.Driver = NewDriver(env, "Driver", ops, cfg.Eager, targets, cfg.PortBuf, cfg.SlowDriver)
 	conn.PlugIn(ch.Driver.GetPortByName("Mem"))
 	return ch
 }
